@@ -4,6 +4,7 @@ import (
 	"bytes"
 	"encoding/csv"
 	"fmt"
+	"io"
 	"os"
 	"path/filepath"
 	"strings"
@@ -12,6 +13,7 @@ import (
 	"github.com/go-logr/logr"
 	"github.com/wrgl/wrgl/pkg/diff"
 	"github.com/wrgl/wrgl/pkg/objects"
+	"github.com/wrgl/wrgl/pkg/verifrt"
 
 	"verif/mc"
 	"verif/model"
@@ -170,7 +172,175 @@ func checkDiff(c *mc.Ctx, t1, t2 *storedTable, pk []int, desc string) (events in
 			return len(got), false
 		}
 	}
+	if !c04readers(c, t1, t2, got, desc) {
+		return len(got), false
+	}
 	return len(got), true
+}
+
+// c04readers resolves the events the way `wrgl diff` does: added rows through a RowListReader on the first
+// table, removed rows through one on the second, modified rows through a RowChangeReader; and reads both
+// tables through the table reader of `wrgl preview`. Every reader is driven sequentially and by Seek in
+// descending order, once with the default block buffer and once with a block buffer that holds one block
+// (the memory the machine reports is an environment answer owned by the harness).
+func c04readers(c *mc.Ctx, t1, t2 *storedTable, got []*objects.Diff, desc string) bool {
+	needRewrite("fastmem")
+	defer func() { verifrt.MemTotal, verifrt.MemAvail = 16<<30, 8<<30 }()
+	for _, small := range []bool{false, true} {
+		if small {
+			verifrt.MemTotal, verifrt.MemAvail = 8, 2
+		} else {
+			verifrt.MemTotal, verifrt.MemAvail = 16<<30, 8<<30
+		}
+		mode := "default block buffer"
+		if small {
+			mode = "one-block buffer"
+		}
+		var added, removed *diff.RowListReader
+		var changed *diff.RowChangeReader
+		var wantAdded, wantRemoved [][]string
+		var wantChanged [][][]string
+		cd := diff.CompareColumns([2][]string{t2.tbl.Columns, t2.tbl.PrimaryKey()}, [2][]string{t1.tbl.Columns, t1.tbl.PrimaryKey()})
+		rowOf := func(t *storedTable, off uint32) []string {
+			if int(off) < len(t.rows) {
+				return t.rows[off]
+			}
+			return nil
+		}
+		var err error
+		for _, d := range got {
+			switch {
+			case d.OldSum == nil:
+				if added == nil {
+					if added, err = diff.NewRowListReader(t1.db, t1.tbl); err != nil {
+						c.Fail("reader-error", "NewRowListReader: %v; %s", err, desc)
+						return false
+					}
+				}
+				added.Add(d.Offset)
+				wantAdded = append(wantAdded, rowOf(t1, d.Offset))
+			case d.Sum == nil:
+				if removed == nil {
+					if removed, err = diff.NewRowListReader(t2.db, t2.tbl); err != nil {
+						c.Fail("reader-error", "NewRowListReader: %v; %s", err, desc)
+						return false
+					}
+				}
+				removed.Add(d.OldOffset)
+				wantRemoved = append(wantRemoved, rowOf(t2, d.OldOffset))
+			default:
+				if changed == nil {
+					if changed, err = diff.NewRowChangeReader(t1.db, t2.db, t1.tbl, t2.tbl, cd); err != nil {
+						c.Fail("reader-error", "NewRowChangeReader: %v; %s", err, desc)
+						return false
+					}
+				}
+				changed.AddRowDiff(d)
+				nr, or := rowOf(t1, d.Offset), rowOf(t2, d.OldOffset)
+				// one entry per column in the column comparison's own order (key columns first): [value] or [new, old]
+				var m [][]string
+				for _, name := range cd.Names {
+					for i, cn := range t1.tbl.Columns {
+						if cn != name || i >= len(nr) || i >= len(or) {
+							continue
+						}
+						if nr[i] == or[i] {
+							m = append(m, []string{nr[i]})
+						} else {
+							m = append(m, []string{nr[i], or[i]})
+						}
+					}
+				}
+				wantChanged = append(wantChanged, m)
+			}
+		}
+		type rowReader interface {
+			Read() ([]string, error)
+			Seek(int, int) (int, error)
+			Len() int
+		}
+		checkList := func(name string, r rowReader, want [][]string) bool {
+			if r.Len() != len(want) {
+				c.Fail("reader-len", "%s reader reports %d rows, %d expected (%s); %s", name, r.Len(), len(want), mode, desc)
+				return false
+			}
+			for i := range want {
+				row, err := r.Read()
+				if err != nil || model.RowString(row) != model.RowString(want[i]) {
+					c.Fail("reader-row", "%s reader, sequential read #%d: %q (err %v), expected %q (%s); %s", name, i, row, err, want[i], mode, desc)
+					return false
+				}
+			}
+			if row, err := r.Read(); err != io.EOF {
+				c.Fail("reader-row", "%s reader: read past the end returned %q, %v (%s); %s", name, row, err, mode, desc)
+				return false
+			}
+			for i := len(want) - 1; i >= 0; i-- {
+				if _, err := r.Seek(i, io.SeekStart); err != nil {
+					c.Fail("reader-error", "%s reader Seek(%d): %v; %s", name, i, err, desc)
+					return false
+				}
+				row, err := r.Read()
+				if err != nil || model.RowString(row) != model.RowString(want[i]) {
+					c.Fail("reader-row", "%s reader, Seek(%d) then Read: %q (err %v), expected %q (%s); %s", name, i, row, err, want[i], mode, desc)
+					return false
+				}
+			}
+			// first and last row alternately: with a one-block buffer every read evicts the other block
+			for k := 0; k < 2 && len(want) > 1; k++ {
+				for _, i := range []int{len(want) - 1, 0} {
+					r.Seek(i-len(want), io.SeekEnd)
+					row, err := r.Read()
+					if err != nil || model.RowString(row) != model.RowString(want[i]) {
+						c.Fail("reader-row", "%s reader, Seek(%d, end) then Read: %q (err %v), expected %q (%s); %s", name, i-len(want), row, err, want[i], mode, desc)
+						return false
+					}
+				}
+			}
+			return true
+		}
+		if added != nil && !checkList("added-rows", added, wantAdded) {
+			return false
+		}
+		if removed != nil && !checkList("removed-rows", removed, wantRemoved) {
+			return false
+		}
+		if changed != nil {
+			if changed.Len() != len(wantChanged) {
+				c.Fail("reader-len", "row-change reader reports %d rows, %d expected; %s", changed.Len(), len(wantChanged), desc)
+				return false
+			}
+			sameCols := fmt.Sprintf("%q", t1.tbl.Columns) == fmt.Sprintf("%q", t2.tbl.Columns)
+			for pass := 0; pass < 2 && sameCols; pass++ {
+				for j := range wantChanged {
+					i := j
+					var m [][]string
+					var err error
+					if pass == 0 {
+						m, err = changed.Read()
+					} else {
+						i = len(wantChanged) - 1 - j
+						m, err = changed.ReadAt(i)
+					}
+					if err != nil || fmt.Sprintf("%q", m) != fmt.Sprintf("%q", wantChanged[i]) {
+						c.Fail("reader-row", "row-change reader, pass %d row #%d: %q (err %v), expected %q (%s); %s", pass, i, m, err, wantChanged[i], mode, desc)
+						return false
+					}
+				}
+			}
+		}
+		for ti, t := range []*storedTable{t1, t2} {
+			tr, err := diff.NewTableReader(t.db, t.tbl)
+			if err != nil {
+				c.Fail("reader-error", "NewTableReader: %v; %s", err, desc)
+				return false
+			}
+			if !checkList(fmt.Sprintf("table-%d", ti+1), tr, t.rows) {
+				return false
+			}
+		}
+	}
+	return true
 }
 
 var c04keys = []string{"", "a", "b", "c", "d", "e", "f"}
